@@ -605,6 +605,9 @@ func (ce *CEnv) evalBinary(n *ast.BinaryExpr) (Val, error) {
 		}
 		return Val{T: a.T, C: []*Term{BVBin(op, a.C[0], cnt)}}, nil
 	}
+	if a.T == types.Typ[types.Invalid] || b.T == types.Typ[types.Invalid] {
+		return bval(FreshVar("opaque", BoolSort)), nil
+	}
 	a, b = ce.coerce(a, b)
 	// nil comparisons
 	if n.Op == token.EQL || n.Op == token.NEQ {
@@ -854,6 +857,49 @@ func (ce *CEnv) evalCall(n *ast.CallExpr) (Val, error) {
 				return Val{}, fmt.Errorf("isnewloop outside of a loop clause")
 			}
 			return bval(IntCmp("<", a.C[0], ce.loopEntry.allocW)), nil
+		case "capt":
+			// capt(f, "name"): the variable captured under that name by the (known) closure f
+			a, err := ce.eval(n.Args[0])
+			if err != nil {
+				return Val{}, err
+			}
+			lit, ok := n.Args[1].(*ast.BasicLit)
+			if !ok {
+				return Val{}, fmt.Errorf("capt: second argument must be a string literal")
+			}
+			want, _ := strconv.Unquote(lit.Value)
+			if a.C[0].Op != "intconst" {
+				// opaque function value: the captured variable is unknown (comparisons with it are unconstrained)
+				return Val{T: types.Typ[types.Invalid], C: []*Term{FreshVar("opaque", IntSort)}}, nil
+			}
+			cl, ok := ce.x.closures[int(a.C[0].Val.Int64())]
+			if !ok {
+				return Val{T: types.Typ[types.Invalid], C: []*Term{FreshVar("opaque", IntSort)}}, nil
+			}
+			for i, fv := range cl.Fn.FreeVars {
+				if fv.Name() == want && i < len(cl.Bindings) {
+					return ce.x.loadWF(ce.st, derefPtr(cl.Bindings[i])), nil
+				}
+			}
+			return Val{}, fmt.Errorf("capt: closure %s does not capture %s", cl.Fn.Name(), want)
+		case "isclosure":
+			// isclosure(f, "pkg-relative function name"): f is a closure of that function
+			a, err := ce.eval(n.Args[0])
+			if err != nil {
+				return Val{}, err
+			}
+			lit, ok := n.Args[1].(*ast.BasicLit)
+			if !ok {
+				return Val{}, fmt.Errorf("isclosure: second argument must be a string literal")
+			}
+			want, _ := strconv.Unquote(lit.Value)
+			if a.C[0].Op == "intconst" {
+				if cl, ok := ce.x.closures[int(a.C[0].Val.Int64())]; ok {
+					_, nm := relName(cl.Fn)
+					return bval(BoolT(nm == want)), nil
+				}
+			}
+			return bval(FreshVar("opaque", BoolSort)), nil
 		case "tape":
 			a, err := ce.eval(n.Args[0])
 			if err != nil {
